@@ -416,7 +416,7 @@ Definition udec_step (st : ucodec * bytes) (chunk : bytes) (final : bool)
     else match dec_run U16le data final with
          | Ok (t, p) =>
            if (2 <=? length data - length p)%nat then Err E_UNICODE  (* stream does not start with BOM *)
-           else Ok ((U16, p), t)
+           else Ok ((U16, data), [])                                 (* nothing consumed yet *)
          | Err e => Err e
          end
   | U32 =>
@@ -425,7 +425,7 @@ Definition udec_step (st : ucodec * bytes) (chunk : bytes) (final : bool)
     else match dec_run U32le data final with
          | Ok (t, p) =>
            if (4 <=? length data - length p)%nat then Err E_UNICODE
-           else Ok ((U32, p), t)
+           else Ok ((U32, data), [])
          | Err e => Err e
          end
   | _ => plain c data
@@ -553,6 +553,17 @@ Arguments e_enc {UE}.
 Arguments e_name {UE}.
 Arguments e_buf {UE}.
 
+(* decode(): the encoding the bytes are decoded with *)
+Definition decode_name (input : bytes) (given : option str) (force : bool) : res str :=
+  let needs_detect := match given with None => true | Some _ => negb force end in
+  if needs_detect then
+    match detectencoding_str input true with
+    | (Some d, explicit) =>
+      if str_eqb d s_css then Err E_VALUE else Ok (pick_encoding given force d explicit)
+    | (None, _) => Ok s_utf8   (* unreachable: final detection always answers *)
+    end
+  else match given with Some g => Ok g | None => Ok s_utf8 end.
+
 Section Layer.
   Variable UD : Type.      (* an underlying incremental decoder *)
   Variable UE : Type.      (* an underlying incremental encoder / stream writer *)
@@ -566,16 +577,7 @@ Section Layer.
   (* ---- stateless decode / encode (codec.py:219, :240) ---- *)
 
   Definition g_decode (input : bytes) (given : option str) (force : bool) : res text :=
-    let needs_detect := match given with None => true | Some _ => negb force end in
-    let chosen : res str :=
-      if needs_detect then
-        match detectencoding_str input true with
-        | (Some d, explicit) =>
-          if str_eqb d s_css then Err E_VALUE else Ok (pick_encoding given force d explicit)
-        | (None, _) => Ok s_utf8   (* unreachable: final detection always answers *)
-        end
-      else match given with Some g => Ok g | None => Ok s_utf8 end in
-    match chosen with
+    match decode_name input given force with
     | Err e => Err e
     | Ok name =>
       match sdecode name input with
